@@ -1,5 +1,5 @@
 (* C02 — every object mention is attributed to the right incarnation of its id. *)
-From WD Require Import Base Wire Protocol Conn LetterId ConnProofs.
+From WD Require Import Base Wire Protocol Conn LetterId ConnProofs HistorySpecA HistorySpecB HistorySpecC.
 Open Scope Z_scope.
 
 (* invariant of every reachable table (ALL histories): per id the incarnations are numbered
@@ -62,3 +62,35 @@ Example C02_ex : map m_obj (snd (conn_run [] db_init ex_hist)) =
                  [Resolved 1 0; Resolved 2 0; Resolved 1 0; Resolved 2 0; Resolved 3 1]
                  /\ id_label 3 1 = s2l "3b".
 Proof. vm_compute. split; reflexivity. Qed.
+
+(* ---- WHOLE HISTORIES against a table-free specification (Proofs/HistorySpecA-D.v) ---------------------------
+   The history is read as a trace of events  ECre id type | EDel id  (trace P h, computed by counting, without
+   the table): ncre tr id = number of creations of id, spec_ref tr id ty = Resolved id (ncre tr id - 1) when id
+   was created (and the printed interface does not contradict the recorded one), Unresolved otherwise.
+   Within one message: target first (against earlier messages only), then the display's delete_id, then the
+   arguments left to right, a typed new id being attributed after its own creation.  For EVERY protocol
+   database and EVERY history (no well-formedness hypothesis): *)
+Theorem C02_attribution_is_creation_count : forall P h k t m rm,
+  nth_error h k = Some (t, m) ->
+  nth_error (snd (conn_run P db_init h)) k = Some rm ->
+  let tr := trace P (firstn k h) in
+  m_obj rm = spec_ref tr (p_id m) (p_type m) /\
+  map arg_oref (m_args rm) = ms_args (spec_msg P tr m) /\
+  m_destroyed rm = ms_destroyed (spec_msg P tr m).
+Proof. exact attrib_refines. Qed.
+Print Assumptions C02_attribution_is_creation_count.
+
+(* the table holds exactly as many incarnations of an id as the history created *)
+Theorem C02_table_counts : forall P h id,
+  match db_get (fst (conn_run P db_init h)) id with
+  | None => ncre (trace P h) id = 0%nat
+  | Some l => List.length l = ncre (trace P h) id
+  end.
+Proof. exact table_counts. Qed.
+Print Assumptions C02_table_counts.
+
+(* on well-formed histories (no creation of a live client id: wf_hist, computed without the table) the
+   trace is the naive one in which every typed new id reached counts as a creation *)
+Theorem C02_wf_trace_is_naive : forall P h, wf_hist P h = true -> trace P h = ntrace P h.
+Proof. exact wf_trace. Qed.
+Print Assumptions C02_wf_trace_is_naive.
